@@ -255,9 +255,9 @@ class KeyConverter:
         try:
             public_key_numbers = private_key.public_key().public_numbers()
 
-            # Make sure that if bit length is not aligned to 8, full bytes will be used
-            x_byte_length = (public_key_numbers.x.bit_length() + 7) // 8
-            y_byte_length = (public_key_numbers.y.bit_length() + 7) // 8
+            # Coordinates are fixed-width: the width depends on the curve, not on the value
+            x_byte_length = (public_key_numbers.curve.key_size + 7) // 8
+            y_byte_length = x_byte_length
 
             # Convert the numbers into bytes
             x_bytes = public_key_numbers.x.to_bytes(length=x_byte_length, byteorder="big")
